@@ -78,6 +78,8 @@ def ofVErr : VErr → Sexp
   | .fuel => .atom "fuel"
   | .arith => .atom "arith"
   | .unsupported => .atom "unsupported"
+  | .derivativeWrtNumber => .atom "derivativeWrtNumber"
+  | .floatHasNoAtoms => .atom "floatHasNoAtoms"
 
 def ofOpt {α} (f : α → Sexp) : Option α → Sexp
   | some x => f x
